@@ -107,7 +107,9 @@ def run(chk, tier):
     chk.floor("R-PROG", "in-scope loops", nl, 18)
     import uninit
     uninit.wire(chk, P, UTIL_UNITS + LSTOPO_UNITS + ["lstopo-draw.c", "lstopo-ascii.c", "lstopo-fig.c", "lstopo-svg.c", "lstopo-tikz.c", "lstopo-shmem.c", "hwloc-ps.c", "hwloc-gather-cpuid.c", "hwloc-dump-hwdata.c"], 12, 3)
-    chk.decided += ['buffers allocated by the tools for snprintf-like API calls are handed over with their allocated size (no truncated export)',
+    chk.decided += ["hwloc-calc's level width and i-th object use the same inclusion filter (all feasible predicate valuations)",
+                    'values filled by fallible readers in the tools are not read after a failure',
+                    'buffers allocated by the tools for snprintf-like API calls are handed over with their allocated size (no truncated export)',
                     "hwloc-calc's operators map to the documented set operations", "tools never mix cpusets and nodesets", "no NULL object name/subtype or optional argument pointer is used as a string (no crash on unnamed objects)",
                     "lstopo's XML/synthetic outputs come from the library exports of the loaded topology", "hwloc-distrib prints what its single hwloc_distrib call returned"]
     chk.undecided += ["that the printed set equals the API-computed set", "--largest / -I / -N / --single equivalences", "hwloc-diff | hwloc-patch file equality", "non-zero exit status on every malformed argument"]
